@@ -22,8 +22,11 @@ Variable K : kinds.
 Variable rs : list rule.
 Variable toks : list rtok.
 Variable keywords soft_keywords : list string.
-Variable aeval : action -> list (string * value) -> value.         (* interpretation of actions *)
-Variable item_name : nitem -> option string.                      (* name an action can use for the item *)
+(* interpretation of an alternative's action: the values of its items, the bound names, the span
+   [start, end) of the match; None = evaluating the action raises *)
+Variable aeval : alt -> list value -> list (string * value) -> nat -> nat -> option value.
+(* the name the action can use for the k-th item of an alternative (explicit name, documented default name) *)
+Variable item_name : alt -> nat -> option string.
 Variable forced_msg : item -> string.                             (* message of a failing && *)
 
 (* does token t satisfy the token-kind name n?  None: n is not a token kind the model knows *)
@@ -57,14 +60,14 @@ Definition is_lookahead (i : item) : bool := match i with PosLook _ | NegLook _ 
 
 (* the value an alternative yields: its action over the named items, else the single item, else
    the list of items (documented rule) *)
-Definition alt_value (a : alt) (vals : list value) (env : list (string * value)) : value :=
+Definition alt_value (a : alt) (vals : list value) (env : list (string * value)) (s e : nat) : option value :=
   match alt_action a with
-  | Some act => aeval act env
-  | None => match vals with [v] => v | _ => VList vals end
+  | Some _ => aeval a vals env s e
+  | None => Some (match vals with [v] => v | _ => VList vals end)
   end.
 
-Definition bind_name (n : nitem) (v : value) (env : list (string * value)) : list (string * value) :=
-  match item_name n with Some x => (env ++ [(x, v)])%list | None => env end.
+Definition bind_name (a : alt) (k : nat) (v : value) (env : list (string * value)) : list (string * value) :=
+  match item_name a k with Some x => (x, v) :: env | None => env end.
 
 Inductive peg_item : item -> nat -> pres -> Prop :=
 | P_rule n r p res : find_rule rs n = Some r -> peg_alts (rhs_alts (rrhs r)) p res -> peg_item (NameLeaf n) p res
@@ -112,26 +115,29 @@ with peg_sep : item -> item -> nat -> (list value * nat) + (string * nat) -> Pro
 | PG_more s e p vs p1 v p2 res : peg_item s p (PSucc vs p1) -> peg_item e p1 (PSucc v p2) -> peg_sep s e p2 res ->
     peg_sep s e p (match res with inl (l, p') => inl (v :: l, p') | inr er => inr er end)
 
-(* a sequence of named items; [cut] = a cut has been passed *)
-with peg_seq : list nitem -> nat -> list value -> list (string * value) -> bool -> sres -> Prop :=
-| PQ_nil p vals env cut : peg_seq [] p vals env cut (SSucc vals env p)
-| PQ_fail n ns p vals env cut : peg_item (ni_item n) p PFail ->
-    peg_seq (n :: ns) p vals env cut (if cut then SCutFail else SFail)
-| PQ_err n ns p vals env cut m q : peg_item (ni_item n) p (PErr m q) -> peg_seq (n :: ns) p vals env cut (SErr m q)
-| PQ_step n ns p vals env cut v p1 res : peg_item (ni_item n) p (PSucc v p1) ->
-    peg_seq ns p1 (if is_lookahead (ni_item n) then vals else (vals ++ [v])%list)
-            (if is_lookahead (ni_item n) then env else bind_name n v env)
+(* the items of alternative [a] from the k-th on; [cut] = a cut has been passed; lookaheads and cuts
+   carry no value and bind no name *)
+with peg_seq : alt -> nat -> list nitem -> nat -> list value -> list (string * value) -> bool -> sres -> Prop :=
+| PQ_nil a k p vals env cut : peg_seq a k [] p vals env cut (SSucc vals env p)
+| PQ_fail a k n ns p vals env cut : peg_item (ni_item n) p PFail ->
+    peg_seq a k (n :: ns) p vals env cut (if cut then SCutFail else SFail)
+| PQ_err a k n ns p vals env cut m q : peg_item (ni_item n) p (PErr m q) -> peg_seq a k (n :: ns) p vals env cut (SErr m q)
+| PQ_step a k n ns p vals env cut v p1 res : peg_item (ni_item n) p (PSucc v p1) ->
+    peg_seq a (S k) ns p1 (if is_lookahead (ni_item n) || is_cut (ni_item n) then vals else (vals ++ [v])%list)
+            (if is_lookahead (ni_item n) then env else bind_name a k v env)
             (cut || is_cut (ni_item n)) res ->
-    peg_seq (n :: ns) p vals env cut res
+    peg_seq a k (n :: ns) p vals env cut res
 
 (* ordered choice: commits to the first alternative that succeeds; a failure after a cut commits too *)
 with peg_alts : list alt -> nat -> pres -> Prop :=
 | PA_nil p : peg_alts [] p PFail
-| PA_ok a rest p vals env p' : peg_seq (alt_items a) p [] [] false (SSucc vals env p') ->
-    peg_alts (a :: rest) p (PSucc (alt_value a vals env) p')
-| PA_next a rest p res : peg_seq (alt_items a) p [] [] false SFail -> peg_alts rest p res -> peg_alts (a :: rest) p res
-| PA_cut a rest p : peg_seq (alt_items a) p [] [] false SCutFail -> peg_alts (a :: rest) p PFail
-| PA_err a rest p m q : peg_seq (alt_items a) p [] [] false (SErr m q) -> peg_alts (a :: rest) p (PErr m q).
+| PA_ok a rest p vals env p' v : peg_seq a 0 (alt_items a) p [] [] false (SSucc vals env p') ->
+    alt_value a vals env p p' = Some v -> peg_alts (a :: rest) p (PSucc v p')
+| PA_next a rest p res : peg_seq a 0 (alt_items a) p [] [] false SFail -> peg_alts rest p res -> peg_alts (a :: rest) p res
+| PA_cut a rest p : peg_seq a 0 (alt_items a) p [] [] false SCutFail -> peg_alts (a :: rest) p PFail
+| PA_err a rest p m q : peg_seq a 0 (alt_items a) p [] [] false (SErr m q) -> peg_alts (a :: rest) p (PErr m q)
+| PA_raise a rest p vals env p' : peg_seq a 0 (alt_items a) p [] [] false (SSucc vals env p') ->
+    alt_value a vals env p p' = None -> peg_alts (a :: rest) p (PErr "action raises" p').
 
 Definition peg_start (p : nat) (res : pres) : Prop := peg_item (NameLeaf "start") p res.
 
